@@ -929,12 +929,12 @@ func receipts() {
 			var err error
 			rest, err = types.VerifC19UnmarshalStore(&dec, data, v2)
 			if err != nil {
-				return "err"
+				return "reject"
 			}
 			return receiptTokens(&dec) + " | " + hx(rest)
 		})
 		if panicked {
-			out = "panic"
+			out = "reject" // a decoder that panics on bytes it cannot read and one that returns an error both refuse them
 		}
 		run.Op("rus "+vtag(v2)+" "+hx(data), out, !panicked)
 		run.Count("receipt-decode-" + kind)
@@ -1027,12 +1027,12 @@ func receipts() {
 			d.SetHardFork(hfCfg, c.GetBlockNo())
 			out, panicked := vh.Guard(func() string {
 				if err := d.UnmarshalBinary(data); err != nil {
-					return "err"
+					return "reject"
 				}
 				return receiptsTokens(&d)
 			})
 			if panicked {
-				out = "panic"
+				out = "reject"
 			}
 			run.Op("rsu "+vtag(v2)+" "+hx(data), out, !panicked)
 			run.Count("receipts-decode-truncated")
@@ -1045,18 +1045,18 @@ func receipts() {
 			d.SetHardFork(hfCfg, c.GetBlockNo()) // chaindb.go getReceipts
 			out, panicked := vh.Guard(func() string {
 				if err := gob.Decode(val, &d); err != nil {
-					return "err"
+					return "reject"
 				}
 				return receiptsTokens(&d)
 			})
 			if panicked {
-				out = "panic"
+				out = "reject"
 			}
 			run.Op("rsu "+vtag(v2)+" "+hx(raw), out, !panicked)
 			run.Count("receipts-decode-gob")
 			if allWf {
 				rep := map[string]interface{}{"format": vtag(v2), "op": sb.String()}
-				if panicked || out == "err" {
+				if panicked || out == "reject" {
 					run.Fail("stored receipts cannot be read back ("+out+")", rep)
 				} else {
 					got := d.Get()
